@@ -69,24 +69,48 @@ func ruleC05DriveOwnership(c *Ctx) {
 		if f == nil {
 			continue
 		}
-		info := f.Pkg.TypesInfo
 		dv := paramVar(f, "drive")
 		k := 0
-		for _, cs := range f.calls {
-			uses := false
-			for _, a := range cs.Call.Args {
-				if usesObj(info, a, dv) {
-					uses = true
+		// the path may be handed on to a helper of pkg/tape, which is then held to the same rule (two levels)
+		var pathUses func(g *FuncInfo, v *types.Var, depth int)
+		pathUses = func(g *FuncInfo, v *types.Var, depth int) {
+			info := g.Pkg.TypesInfo
+			for _, cs := range g.calls {
+				uses := false
+				for _, a := range cs.Call.Args {
+					if usesObj(info, a, v) {
+						uses = true
+					}
 				}
+				if !uses {
+					continue
+				}
+				o := cs.Callee
+				if cs.Target != nil && cs.Target != g && cs.Target.Pkg == g.Pkg && cs.Target.Obj != nil && depth < 2 {
+					sig := cs.Target.Obj.Type().(*types.Signature)
+					plain := true
+					var hp *types.Var
+					for i, a := range cs.Call.Args {
+						if !usesObj(info, a, v) {
+							continue
+						}
+						if objOfIdent(info, a) == types.Object(v) && i < sig.Params().Len() && hp == nil {
+							hp = sig.Params().At(i)
+						} else {
+							plain = false
+						}
+					}
+					if plain && hp != nil {
+						pathUses(cs.Target, hp, depth+1)
+						continue
+					}
+				}
+				k++
+				good := isPkgFunc(o, "os", "Stat") || isPkgFunc(o, "os", "Open") || isPkgFunc(o, "os", "OpenFile")
+				c.verdictIf(good, rule, f, fmt.Sprintf("path use#%d", k), cs.Call.Pos(), "drive path used by "+o.Name(), "the drive path is passed to "+exprString(cs.Call.Fun)+" (only os.Stat/Open/OpenFile are expected): e.g. os.Create/Remove/Rename/WriteFile would destroy tape content")
 			}
-			if !uses {
-				continue
-			}
-			k++
-			o := cs.Callee
-			good := isPkgFunc(o, "os", "Stat") || isPkgFunc(o, "os", "Open") || isPkgFunc(o, "os", "OpenFile")
-			c.verdictIf(good, rule, f, fmt.Sprintf("path use#%d", k), cs.Call.Pos(), "drive path used by "+o.Name(), "the drive path is passed to "+exprString(cs.Call.Fun)+" (only os.Stat/Open/OpenFile are expected): e.g. os.Create/Remove/Rename/WriteFile would destroy tape content")
 		}
+		pathUses(f, dv, 0)
 		if name == "OpenTapeReadOnly" {
 			for _, cs := range f.calls {
 				if isPkgFunc(cs.Callee, "os", "OpenFile") && len(cs.Call.Args) == 3 {
@@ -389,15 +413,11 @@ func ruleC05Pax(c *Ctx) {
 		if ws.h == nil {
 			continue
 		}
-		// only headers built from file info (tar.FileInfoHeader) carry no format yet
-		_, dcall, _ := defOf(f, ws.h)
-		if dcall == nil || !isPkgFunc(calleeObj(info, dcall), "archive/tar", "FileInfoHeader") {
-			c.ok(rule, f, fmt.Sprintf("WriteHeader#%d format", ws.ord), ws.cs.Call.Pos(), false, "header loaded from the index (format column) - assumption, not an obligation")
-			continue
-		}
+		// headers built from file info carry no format yet; headers loaded from the index carry whatever format the
+		// entry was archived in (USTAR/GNU for foreign archives) - both need PAX for the STFS records
 		fl := c.flow(f)
 		okk, _ := fl.dominatedBy(ws.cs.Call, func(n ast.Node) bool { return isPaxStore(info, n, ws.h) }, nil)
-		c.verdictIf(okk, rule, f, fmt.Sprintf("WriteHeader#%d format", ws.ord), ws.cs.Call.Pos(), "Format = tar.FormatPAX assigned on every path before the header is written", "a freshly built header can be written without Format = tar.FormatPAX: its STFS records would be dropped by the tar encoder")
+		c.verdictIf(okk, rule, f, fmt.Sprintf("WriteHeader#%d format", ws.ord), ws.cs.Call.Pos(), "Format = tar.FormatPAX assigned on every path before the header is written", "a header can be written without Format = tar.FormatPAX having been assigned: STFS records are dropped (unknown format) or the tar encoder refuses the header (entries of foreign USTAR/GNU archives can then not be removed or renamed)")
 	}
 	for _, f := range []*FuncInfo{p.signHeader, p.encHeader} {
 		info := f.Pkg.TypesInfo
